@@ -21,7 +21,7 @@ demo = demos[0]
 src = open(demo).read()
 pkg = re.search(r'^package (\w+)', src, re.M).group(1)
 dirs = {'binary': 'proto/binary', 'thrift': 'thrift', 'j2p': 'conv/j2p', 'p2j': 'conv/p2j', 'j2t': 'conv/j2t', 't2j': 'conv/t2j',
-        'protowire': 'proto/protowire', 'annotation': 'thrift/annotation', 'proto': 'proto', 'http': 'http', 'caching': 'internal/caching', 'util': 'internal/util', 'json': 'internal/json'}
+        'protowire': 'proto/protowire', 'annotation': 'thrift/annotation', 'proto': 'proto', 'http': 'http', 'caching': 'internal/caching', 'util': 'internal/util', 'json': 'internal/json', 'native': 'internal/native', 'types': 'internal/native/types', 'rt': 'internal/rt'}
 if pkg == 'generic':
     d = 'proto/generic' if re.search(r'"github.com/cloudwego/dynamicgo/proto(/binary|/protowire)?"', src) and not re.search(r'dynamicgo/thrift"', src) else 'thrift/generic'
     # in-package tests may import nothing: fall back on the patched file / helper names
@@ -40,11 +40,14 @@ rc, out = subprocess.run('/verif/tools/suite.sh', shell=True, env=dict(ENV, DGRE
 res['suite_passes_with_change'] = rc == 0
 shutil.copy(demo, os.path.join(WT, d, os.path.basename(demo)))
 tests = '|'.join(re.findall(r'^func (Test\w+)\(', src, re.M))
-rc, out = sh(f"go test -vet=off -count=1 -run '^({tests})$' ./{d}/")
+notes_txt = open(os.path.join(mdir, 'notes.txt')).read() if os.path.exists(os.path.join(mdir, 'notes.txt')) else ''
+TAGS = '-tags go1.25 ' if 'tags go1.25' in notes_txt or 'tags=go1.25' in notes_txt else ''
+res['demo_tags'] = TAGS.strip()
+rc, out = sh(f"go test {TAGS}-vet=off -count=1 -run '^({tests})$' ./{d}/")
 res['demo_fails_with_change'] = rc != 0
 res['demo_output_with_change'] = '\n'.join(out.strip().split('\n')[-12:])
 sh(f'git apply -R {patch}')
-rc, out2 = sh(f"go test -vet=off -count=1 -run '^({tests})$' ./{d}/")
+rc, out2 = sh(f"go test {TAGS}-vet=off -count=1 -run '^({tests})$' ./{d}/")
 res['demo_passes_without_change'] = rc == 0
 sh('git checkout -- . && git clean -fdq')
 ok = all(res[k] for k in ['builds', 'suite_passes_with_change', 'demo_fails_with_change', 'demo_passes_without_change'])
@@ -57,7 +60,7 @@ if ok:
     shutil.copy(demo, dst + '/' + os.path.basename(demo) + '.txt')
     notes = open(os.path.join(mdir, 'notes.txt')).read() if os.path.exists(os.path.join(mdir, 'notes.txt')) else ''
     meta = {'property': prop, 'breaks': notes.strip().split('\n')[0][:400], 'needs_to_manifest': notes.strip()[:1500],
-            'demo': {'file': os.path.basename(demo) + '.txt', 'copy_to': d + '/' + os.path.basename(demo), 'run': f"go test -vet=off -count=1 -run '^({tests})$' ./{d}/"},
+            'demo': {'file': os.path.basename(demo) + '.txt', 'copy_to': d + '/' + os.path.basename(demo), 'run': f"go test {TAGS}-vet=off -count=1 -run '^({tests})$' ./{d}/"},
             'confirmed_by': 'tools/confirmmutant.py in scratch worktree /tmp/wt/confirm: go build ./... ok; tools/suite.sh 616/616 with the change; demo FAILS with the change and PASSES without it',
             'demo_output_with_change_tail': res['demo_output_with_change'], 'base_commit': subprocess.check_output('git -C /repo rev-parse --short HEAD', shell=True, text=True).strip(),
             'detected_by': None}
